@@ -36,7 +36,7 @@ def signature(step):
     parts = str(step).split(":")
     if parts[0] == "ctor":
         return "c20:ctor:%s" % ":".join(parts[1:])
-    if parts[0] in ("split_at", "slice_ref", "pair"):
+    if parts[0] in ("split_at", "slice_ref", "pair", "shared"):
         return "c20:%s" % parts[0]
     return "c20:%s" % parts[-1]
 
@@ -96,12 +96,16 @@ def _judge_traces(ctx, tfile, vecs, by_key, tag):
     for (ri, pos, pred) in rejects:
         rec = next((r for r in runs[ri] if r.get("ev") == "vec"), runs[ri][0])  # run = [reset, vec, end]
         vec = vecs[rec["i"]] if rec.get("i") is not None and rec["i"] < len(vecs) else {"s": rec.get("s"), "v": None, "b": []}
-        what = "ctor" if (rec.get("acc") != vec.get("v") or rec.get("rej") == vec.get("v")) else "split_at"
+        ln = len(rec.get("s", []))
+        cmp_bad = vec.get("v") and (rec.get("eqp") != [ln] or rec.get("eqs") != [0])
+        what = "ctor" if (rec.get("acc") != vec.get("v") or rec.get("rej") == vec.get("v")) else (
+            "shared" if cmp_bad and sorted(rec.get("split", [])) == sorted(vec.get("b", [])) else "split_at")
         ctx.violation("c20:%s" % what,
                       "TLC: %s is false on the observation of bytes [%s]: all constructors accepted=%s, all "
-                      "rejected=%s, split_at returned at %s; the table says valid=%s, boundaries=%s" % (
+                      "rejected=%s, split_at returned at %s, left half == whole at %s, right half == whole at %s; the "
+                      "table says valid=%s, boundaries=%s" % (
                           pred or "C20_ObservedAgrees", _hex(rec.get("s", [])), rec.get("acc"), rec.get("rej"),
-                          rec.get("split"), vec.get("v"), vec.get("b")),
+                          rec.get("split"), rec.get("eqp"), rec.get("eqs"), vec.get("v"), vec.get("b")),
                       {"vectors": _context(vec, by_key) if vec.get("v") is not None else [], "observed": rec})
     return runs, accepted, rejects
 
@@ -162,7 +166,7 @@ def run(ctx):
     ctx.cov["impl_steps"] = summ["steps"]
     ctx.cov["driver_mismatches"] = summ["mismatches"]
     ctx.cov["driver_counts"] = {k: summ[k] for k in ("ctor_accepts", "ctor_rejects", "split_calls", "split_panics",
-                                                     "slice_refs", "foreign_slice_ref_panics", "pairs", "traced")}
+                                                     "slice_refs", "foreign_slice_ref_panics", "pairs", "shared_comparisons", "traced")}
     multi = [v for v in vecs if v["v"] and len(v["b"]) < len(v["s"]) + 1]
     rng_rej = [v for v in vecs if v.get("r")]
     samples = vlib.sample(ctx.rng, multi, 3) + vlib.sample(ctx.rng, rng_rej, 3)
@@ -174,7 +178,9 @@ def run(ctx):
         "acceptance, split_at panics and validity of every produced value; std::str::from_utf8/str::split_at are "
         "compared with the spec too and a disagreement would be a tool error",
         "Deref/AsRef/Borrow/Display/Debug/String conversion/Hash/Eq/Ord parity is differential against std's str "
-        "(std is the oracle there, not the model); pairs of valid vectors are a seeded sample unless <= 64 valid vectors",
+        "(std is the oracle there, not the model); pairs of independently allocated valid vectors are a seeded sample "
+        "unless <= 64 valid vectors; handles that share storage (split_at halves, slice_ref results, &str sub-slices) are "
+        "compared with the whole and with each other exhaustively for every valid vector, value and boundary",
         "strings longer than MaxLen and bytes outside the alphabet are not enumerated; serde feature not driven",
     ]
 
